@@ -151,7 +151,7 @@ class Tracer(object):
         if isinstance(s, ast.Assign) and len(s.targets) == 1 and isinstance(s.targets[0], ast.Name):
             v = self.value(s.value, p)
             name = s.targets[0].id
-            if v is not UNKNOWN:
+            if v is not UNKNOWN and not isinstance(v, (list, dict, set, bytearray)):
                 p.env[name] = v
             else:
                 p.env.pop(name, None)
